@@ -15,6 +15,24 @@ SEM_FAULTS = ['g0 + (x < 1) == 1', '-(x < 1) == 1', '!x', '(x ? 1 : 2) == 1', '(
               'g1 = (true ? x : g0 == 1)', '(g0 == 1 ? x : g1) == 1', 'g0 == (g1 ? 1 : (x < 1))', 'fmax(x < 1, 2) > 1', 'g0 += (x < 1)', '(x < 1)++', 'g0 == 1 && (x ? true : false)']
 
 
+# faults the parser recovers from inside the label (the error production of a bracket resynchronises): the label still delivers an expression
+RECOVERED = ['( * 2 )', '2 * ( * 3 )', '( )', '( + )', '1 + ( * )', '( * 2 ) * 3', 'g0 + ( )', '( , )', '( ( * 1 ) )', '2 : ( * 3 )']
+
+_SIM = []
+def leaves_stray_fragment(text):
+    """the known defect of the rate label: the faulted text leaves an expression fragment behind (beyond the one a complete parse delivers), which the location then takes
+    for its invariant.  Decided by replaying the parser on the regenerated tables; when the replay cannot tell (a token the scanner model rejects, a callback whose
+    effect depends on its arguments) the case is left with the known finding"""
+    import lrsim
+    if not _SIM:
+        _SIM.append(lrsim.Sim())
+    try:
+        n = lrsim.stray_fragments(_SIM[0], 7, text)
+    except Exception:
+        return True
+    return n is None or n >= 1
+
+
 def label_sites(M):
     """every non-declaring label of M: (description, xpath, dump line prefix, field, kind, marker)"""
     sites = []
@@ -146,7 +164,8 @@ def check(run):
             S = rng.choice(sites)
             r = rng.random()
             orig = docgen.ltext(M, S['key'][0], S['key'][1])
-            if r < 0.3: bad = rng.choice(FAULTS)
+            if S['what'] in ('rate', 'invariant') and rng.random() < 0.4: bad = rng.choice(RECOVERED)
+            elif r < 0.3: bad = rng.choice(FAULTS)
             elif r < 0.5: bad = rng.choice(SEM_FAULTS)
             elif r < 0.9: bad = crashgen.mutate_tokens(rng, orig, n=1)
             else: bad = orig + ' ' + rng.choice(FAULTS + ['/* never closed', '/* open\n comment'])
@@ -215,7 +234,7 @@ def check(run):
             run.fail('a fault in the %s at %s changes the document elsewhere: %r became %r' % (S['what'], S['xpath'], diff[0][:160], diff[1][:160]),
                      dict(xml=x, faulted_label=S['xpath'], text=bad, fault_free=diff[0], faulted=diff[1]),
                      shape='frame-leak' if leakish and ('@tmpl' in diff[1] or '@nested' in diff[1]) else
-                           ('stray-fragment:location' if S['what'] == 'rate' and diff[0].startswith(S['line']) else 'spill:' + S['what'] + ':' + re.sub(r'\d+', 'N', diff[0].split('=')[0])[:30]))
+                           ('stray-fragment:location' if S['what'] == 'rate' and diff[0].startswith(S['line']) and leaves_stray_fragment(bad) else 'spill:' + S['what'] + ':' + re.sub(r'\d+', 'N', diff[0].split('=')[0])[:30]))
     stats.update(xta_labels(run, thorough))
     bd = rr['dbase']
     base_lines = [l for l in doc_lines(bd['cmds']) if l.startswith('global ')]
